@@ -3,11 +3,15 @@
    content_from_file / content_from_stream / content_from_reader (238-348), and
    testcase.py:_copy_content (128-145).  Executable definitions only.
 
-   Mutable sources are explicit: a [world] holds the current bytes of the one
-   source location a scenario uses (a BytesIO object or a file on disk), the
-   BytesIO position, and a counter of read() calls.  A Content's get_bytes
-   callable is defunctionalised: [Stored cs] is "lambda: cs" over an immutable
-   list, [Live ...] is the reader closure over the source location. *)
+   Mutable state is explicit: a [world] holds the current bytes of the one
+   stream/file a scenario uses (a BytesIO object or a file on disk), the
+   BytesIO position, a counter of read() calls, and a heap of mutable Python
+   list objects (location = index).  A Content's get_bytes callable is
+   defunctionalised: [Stored cs] is "lambda: cs" over an immutable value,
+   [Live ...] is the reader closure over the stream/file, [InList l] is a
+   callback that yields the CURRENT contents of the list object at location l
+   (by returning that very object, a fresh list(...) of it, or a generator over
+   it - for a consumer that iterates at once these are the same). *)
 From Coq Require Import String.
 From TT Require Import Lib.Base Model.Utf8 Model.MimeCt Gen.Ctc16.
 
@@ -27,7 +31,21 @@ Inductive skind := KBytesIO | KFile.         (* io.BytesIO object | path opened 
 Inductive whence := SeekSet | SeekEnd.       (* os.SEEK_SET = 0, os.SEEK_END = 2 *)
 Definition seekarg := option (Z * whence).   (* seek_offset=None: no seek *)
 
-Record world := { w_data : list N; w_pos : nat; w_reads : nat }.
+Definition loc := nat.
+Definition heap := list (list chunk).
+Record world := { w_data : list N; w_pos : nat; w_reads : nat; w_heap : heap }.
+
+Definition heap_get (l : loc) (h : heap) : list chunk := nth l h [].
+Fixpoint heap_set (l : loc) (v : list chunk) (h : heap) : heap :=
+  match h, l with
+  | [], _ => []
+  | _ :: r, O => v :: r
+  | x :: r, S l' => x :: heap_set l' v r
+  end.
+(* list(iterable): a new list object, at a location nothing else refers to *)
+Definition alloc (v : list chunk) (w : world) : loc * world :=
+  (length (w_heap w),
+   {| w_data := w_data w; w_pos := w_pos w; w_reads := w_reads w; w_heap := w_heap w ++ [v] |}).
 
 (* stream.seek(off, whence): the new position, or what it raises.  BytesIO
    refuses a negative absolute offset (ValueError) and clamps a negative
@@ -78,14 +96,16 @@ Definition run_reader (k : skind) (n : nat) (sk : seekarg) (w : world) : res (li
       | Some (cs, p', r) =>
           (Ok cs, {| w_data := w_data w;
                      w_pos := match k with KBytesIO => p' | KFile => w_pos w end;
-                     w_reads := w_reads w + r |})
+                     w_reads := w_reads w + r;
+                     w_heap := w_heap w |})
       end
   end.
 
 (* ---------------- Content ---------------- *)
 Inductive source :=
 | Stored (cs : list chunk)
-| Live (k : skind) (n : nat) (sk : seekarg).
+| Live (k : skind) (n : nat) (sk : seekarg)
+| InList (l : loc).
 
 Record content := { c_type : ctype; c_src : source }.
 
@@ -93,6 +113,7 @@ Definition iter_src (s : source) (w : world) : res (list chunk) exn * world :=
   match s with
   | Stored cs => (Ok cs, w)
   | Live k n sk => run_reader k n sk w
+  | InList l => (Ok (heap_get l (w_heap w)), w)
   end.
 
 (* Content.iter_bytes(), fully consumed *)
@@ -113,10 +134,12 @@ Definition content_from_source (k : skind) (ct : option ctype) (n : nat) (buffer
   : world -> res content exn * world :=
   content_from_reader (Live k n sk) ct buffer_now.
 
-(* testcase._copy_content, testcase.py:131-145 *)
+(* testcase._copy_content, testcase.py:131-145:
+       content_bytes = list(content_object.iter_bytes())      -- a NEW list object
+       return Content(content_object.content_type, lambda: content_bytes) *)
 Definition copy_content (c : content) (w : world) : res content exn * world :=
   match iter_bytes c w with
-  | (Ok cs, w') => (Ok {| c_type := c_type c; c_src := Stored cs |}, w')
+  | (Ok cs, w') => let (l, w'') := alloc cs w' in (Ok {| c_type := c_type c; c_src := InList l |}, w'')
   | (Raised e, w') => (Raised e, w')
   end.
 
